@@ -75,6 +75,8 @@ fn main() {
       println!("{}", r.show());
       for e in s.intrp.trace_events() { println!("{:?} | {:?} | {}", e.channel, e.label, e.message); }
     }
+    "c09purity" => { props::c09::purity_main(args[2].parse().unwrap_or(0)); }
+    "c20trace" => { props::c20::trace_main(args[2].parse().unwrap_or(0), &args[3]); }
     "flavours" => {
       let prop = props::get(&args[2]).expect("unknown property");
       let tier = Tier::parse(args.get(3).map(|s| s.as_str()).unwrap_or("quick"));
